@@ -1,52 +1,95 @@
-(** C03 — a cache hit returns what recomputation would return. Statements only. *)
-From KV Require Import Bytes RustInt Range CacheControl Cache CacheProofs.
+(** C03 — a cache hit returns what recomputation would return. Statements only.
+    Model: Model/CacheX.v ([serveX]/[runX]: kvarn::handle_cache with streams, body sizes, the status filter, override
+    URIs and the repaired code paths); [_refuted]: witnesses on the model of the code before a repair. *)
+From KV Require Import Bytes RustInt Range CacheControl Cache CacheProofs Fixture CacheX CacheXProofs CacheXWitness.
 Open Scope N_scope.
 
 Section C03.
   Variable hstate : Type.
-  Variable compute : hstate -> request -> bool -> fat * hstate * list bytes.
+  Variable compute : hstate -> request -> option (bytes * option bytes) -> bool -> fatx * hstate * list bytes.
   Variable ims_on : bool.
+  Variable fix_clear : bool.
+  Variable sfilter : N -> bool.
   Variable parse_ims : bytes -> option Z.
   Variable sanitize_ok : request -> bool.
   Variable prime : request -> request.
-  Variable negotiate : request -> fat -> option (N * bytes).
-  Variable vary_tuple : request -> tuple.
-  Variable vary_header : request -> fat -> list (bytes * bytes).
-  (** handler contract: the response is a function [cf] of the request (not of handler state) that
-      depends only on the method class, the path, the vary tuple and — for QueryMatters — the query;
-      query-matters-ness is uniform per path; error responses (sanitize failed) are not cacheable *)
-  Variable cf : request -> bool -> fat.
-  Hypothesis Hpure : forall hs r ok, fst (fst (compute hs r ok)) = cf r ok.
-  Hypothesis contract : forall r r',
+  Variable override : request -> option (bytes * option bytes).
+  Variable negotiate : request -> fatx -> option (N * bytes).
+  Variable vary_tuple : request -> option (bytes * option bytes) -> tuple.
+  Variable vary_header : request -> option (bytes * option bytes) -> fatx -> list (bytes * bytes).
+  Variable clear_alias : request -> option request.
+  (** handler contract: the response is a function [cf] of the request (not of handler state) that depends only on the
+      method class, the path of the URI that selects the handler (the internal route if a Prime extension overrode
+      the URI), the vary tuple and — for QueryMatters — the query; error responses (sanitize failed) are not
+      cacheable *)
+  Variable cf : request -> option (bytes * option bytes) -> bool -> fatx.
+  Hypothesis Hpure : forall hs r ov ok, fst (fst (compute hs r ov ok)) = cf r ov ok.
+  Hypothesis contract : forall r ov r' ov',
     get_or_head (rq_method r) = true -> get_or_head (rq_method r') = true ->
-    vary_tuple r = vary_tuple r' -> rq_path r = rq_path r' ->
-    (qm (cf r true) = true -> path_query r = path_query r') ->
-    cf r true = cf r' true.
-  Hypothesis pref_uniform : forall r r', rq_path r = rq_path r' -> qm (cf r true) = qm (cf r' true).
-  Hypothesis Herr : forall r, f_spref (cf r false) = SP_NONE.
+    vary_tuple r ov = vary_tuple r' ov' -> rq_path (lookup_req r ov) = rq_path (lookup_req r' ov') ->
+    (qmx (cf r ov true) = true -> path_query (lookup_req r ov) = path_query (lookup_req r' ov')) ->
+    cf r ov true = cf r' ov' true.
+  Hypothesis Herr : forall r ov, f_spref (fx_fat (cf r ov false)) = SP_NONE.
+
+  Notation runC := (runX hstate compute true ims_on true true fix_clear true true true sfilter parse_ims sanitize_ok prime
+                         override negotiate vary_tuple vary_header clear_alias).
+  Notation runU := (runX hstate compute false ims_on true true fix_clear true true true sfilter parse_ims sanitize_ok prime
+                         override negotiate vary_tuple vary_header clear_alias).
 
   (** For every history (requests, page clears, clear-all, waits) started in any cache state satisfying the
       invariant, any handler states and any clock value, the observations of the caching server and of the
-      cache-less server are pairwise equivalent (same status, headers, body sent and identity body). *)
+      cache-less server are pairwise equivalent: same status, headers, body sent (with its size), identity body
+      and stream. *)
   Theorem cache_transparent : forall ops c hs cU hsU now,
-    Inv vary_tuple cf c -> Forall (op_no_ims ims_on prime) ops ->
-    Forall2 obs_equiv
-      (run hstate compute true ims_on parse_ims sanitize_ok prime negotiate vary_tuple vary_header (c, hs) now ops)
-      (run hstate compute false ims_on parse_ims sanitize_ok prime negotiate vary_tuple vary_header (cU, hsU) now ops).
-  Proof. exact (run_sim hstate compute ims_on parse_ims sanitize_ok prime negotiate vary_tuple vary_header cf Hpure contract pref_uniform Herr). Qed.
+    TInv vary_tuple cf c -> Forall (op_no_imsx ims_on prime) ops ->
+    Forall2 obsx_equiv (runC (c, hs) now ops) (runU (cU, hsU) now ops).
+  Proof.
+    exact (run_simx hstate compute ims_on fix_clear sfilter parse_ims sanitize_ok prime override negotiate vary_tuple
+             vary_header clear_alias cf Hpure contract Herr).
+  Qed.
 
   Theorem cache_transparent_from_empty : forall ops hs hsU now,
-    Forall (op_no_ims ims_on prime) ops ->
-    Forall2 obs_equiv
-      (run hstate compute true ims_on parse_ims sanitize_ok prime negotiate vary_tuple vary_header ([], hs) now ops)
-      (run hstate compute false ims_on parse_ims sanitize_ok prime negotiate vary_tuple vary_header ([], hsU) now ops).
-  Proof. intros. apply cache_transparent; [apply Inv_nil | assumption]. Qed.
+    Forall (op_no_imsx ims_on prime) ops ->
+    Forall2 obsx_equiv (runC ([], hs) now ops) (runU ([], hsU) now ops).
+  Proof. intros. apply cache_transparent; [apply TInv_nil | assumption]. Qed.
 
-  (** What a hit serves was computed for a request with the same path, the same vary tuple, a GET/HEAD
-      method and — if the response is query-dependent — the same query. *)
-  Theorem cache_hit_same_class : forall c now r k e c1 f,
-    Inv vary_tuple cf c -> lookup r c now = ((k, Some e), c1) -> v_find (vary_tuple r) (e_vars e) = Some f ->
-    exists r1, get_or_head (rq_method r1) = true /\ vary_tuple r1 = vary_tuple r /\ f = cf r1 true /\
-               rq_path r1 = rq_path r /\ (qm f = true -> path_query r1 = path_query r).
-  Proof. exact (hit_same_class vary_tuple cf). Qed.
+  (** What a hit serves was computed for a request with the same path (of the URI looked up), the same vary tuple, a
+      GET/HEAD method and — if the response is query-dependent — the same query. *)
+  Theorem cache_hit_same_class : forall c now lr k e c1 v,
+    TInv vary_tuple cf c -> xlookup lr c now = ((k, Some e), c1) -> xv_find (v_tuple v) (ex_vars e) = Some v ->
+    exists r1 ov1, get_or_head (rq_method r1) = true /\ vary_tuple r1 ov1 = v_tuple v /\ v_resp v = cf r1 ov1 true /\
+                   rq_path (lookup_req r1 ov1) = rq_path lr /\
+                   (qmx (v_resp v) = true -> path_query (lookup_req r1 ov1) = path_query lr).
+  Proof. exact (hit_same_class_x vary_tuple cf). Qed.
 End C03.
+
+(** before the repair (repo 16171bb) the answer of an internal route (override URI of a Prime extension) was stored
+    under the key of the requested page and then served for that page: the caching server answers "internal" where the
+    cache-less one answers "page" *)
+Theorem override_poisons_refuted :
+  bodies (run_cfgx true w3_cx w3_ops) = [B "internal"; B "internal"] /\
+  bodies (run_cfgx false w3_cx w3_ops) = [B "internal"; B "page"].
+Proof. exact override_poisons_refuted_w. Qed.
+
+(** before the repair (repo 1ffc338) a response streamed without a length got a vary header from the cached-item arm
+    but none from a cache-less host *)
+Theorem stream_vary_refuted :
+  nth 1 (vary_of (run_cfgx true w5_cx w1_ops)) None = Some (B "accept-encoding, x-v") /\
+  nth 1 (vary_of (run_cfgx false w5_cx w1_ops)) None = None.
+Proof. exact stream_vary_refuted_w. Qed.
+
+(** before the last repair a query-dependent (QueryMatters) variant computed by handle_vary_missing joined the entry
+    keyed by the path alone (created by a Full variant) and was then served for every query: the request for
+    /v?x=2 got the answer computed for /v?x=1.  With the repair the extra hypothesis "query-matters-ness is uniform
+    per path" of earlier versions of [cache_transparent] is no longer needed. *)
+Theorem qm_variant_refuted :
+  bodies (run_cfgx true w6_cx w6_ops) = [B "static-a"; B "b:/v?x=1"; B "b:/v?x=1"] /\
+  bodies (run_cfgx false w6_cx w6_ops) = [B "static-a"; B "b:/v?x=1"; B "b:/v?x=2"].
+Proof. exact qm_variant_refuted_w. Qed.
+
+(** non-vacuity: a history with a hit, a variant push and an override on the fixture satisfies the contract's
+    conclusion on the repaired model *)
+Example c03_ex_repaired_override :
+  bodies (run_cfgx true (mkCfgX (cx_base w3_cx) [] 0 (cx_ovprime w3_cx) true true true true true true) (w3_ops ++ w3_ops)) =
+  bodies (run_cfgx false (mkCfgX (cx_base w3_cx) [] 0 (cx_ovprime w3_cx) true true true true true true) (w3_ops ++ w3_ops)).
+Proof. vm_compute. reflexivity. Qed.
